@@ -7,7 +7,7 @@ root = '/verif/seeded'
 ids = sorted(d for d in os.listdir(root) if re.fullmatch(r'C\d\d[a-z]', d))
 res = {}
 if os.path.exists(f'{root}/results.tsv'):
-    for l in open(f'{root}/results.tsv'):
+    for l in open(f'{root}/results.tsv', errors='replace'):
         f = l.rstrip('\n').split('\t')
         if len(f) >= 6:
             res[f[0]] = f
